@@ -1,31 +1,37 @@
 /-
   C14 — Property registry: sharing by name, visibility, persistence and lifetime safety.
-  Property theorems only; the model is `OVM/Registry/{Tracker,Registry,World}.lean`, the lemmas
-  are in `OVM/Registry/{TrackerProofs}.lean`.
+
+  Property theorems only.  Models: `OVM/Registry/Tracker.lean` (pointer protocol of
+  detail/Tracking.hh), `OVM/Registry/{Registry,World}.lean` (registry state machine mirroring
+  ResourceManager*.{hh,cc}, PropertyStorageBase.hh after the `fix:` commits a0b1b3d, 5796dc6,
+  02a7a45, 445be8b).  Lemmas: `OVM/Registry/{TrackerProofs,RegistryProofs,OpProofs,WorldProofs,
+  SpecProofs}.lean`.  The tie to the C++ is the differential run of `harness/prop_drv.cc` judged
+  by `OVM/Registry/Driver.lean` (tools/registry_check.py).
 -/
 import OVM.Registry.TrackerProofs
+import OVM.Registry.SpecProofs
 namespace OVM.Props.C14
+open OVM.Registry
 open OVM.Registry.Tracking
 
-/-! ## Lifetime safety of the tracker / tracked back-pointer protocol (detail/Tracking.hh) -/
+/-! ## 1. Lifetime safety of the tracker / tracked back-pointer protocol -/
 
 /-- For every sequence of constructions, copies, moves, assignments, `set_tracker` calls and
-    destructions of trackers and tracked objects, in any order, starting from nothing:
-    the two sides agree (`tracked.tracker = some t ↔ tracked ∈ t.set` for live objects, in the
-    form of the two implications of `PInv`), every stored pointer targets a live object, and no
-    operation ever dereferenced a pointer to a dead object. -/
+    destructions of trackers and tracked objects, in any order, starting from nothing: both
+    sides agree, every stored pointer targets a live object (`PInv`), and no operation ever
+    dereferenced a pointer to a dead object (`fault = false`). -/
 theorem tracker_protocol_safe (ops : List POp) :
     PInv (prun PState.init ops) ∧ (prun PState.init ops).fault = false :=
   prun_good ops PState.init good_init
 
-/-- the `↔` form for live objects in every reachable state -/
+/-- `tracked.tracker = some t ↔ tracked ∈ t.set` for live objects in every reachable state -/
 theorem tracker_iff_member (ops : List POp) (x t : Nat)
     (hx : ((prun PState.init ops).td x).alive = true) (ht : ((prun PState.init ops).tr t).alive = true) :
     ((prun PState.init ops).td x).tracker = some t ↔ x ∈ ((prun PState.init ops).tr t).set :=
   (tracker_protocol_safe ops).1.iff x t hx ht
 
 /-- non-vacuity: a mesh tracker, two storages, a clone (copy + detach + attach elsewhere), the
-    first mesh dies while its storages live on, then everything is destroyed -/
+    first mesh dies while its storages live on, a move, then everything is destroyed -/
 example :
     let ops := [POp.newTracker, .newTracked (some 0), .newTracked (some 0), .newTracker,
                 .copyTracked 1, .setTracker 2 none, .setTracker 2 (some 1),
@@ -35,11 +41,187 @@ example :
       (s.td 1).alive = false ∧ (s.td 3).alive = false ∧ (s.tr 1).alive = false := by
   decide
 
-/-- the flag is not vacuous: the same model does fault when a stored pointer dangles (a state
-    that violates the invariant: a tracked object whose tracker is already dead) -/
+/-- the ghost flag is live: the same transition function does fault from a state violating the
+    invariant (a tracked object whose tracker is already dead) -/
 example :
     let s : PState := { PState.init with td := upd PState.init.td 0 { alive := true, tracker := some 7 }, nTd := 1 }
     (pstep s (.destroyTracked 0)).fault = true := by
+  decide
+
+/-! ## 2. The registry invariants hold in every reachable state -/
+
+/-- Every state reachable from the empty world by ANY sequence of
+    request / create_shared / create_persistent / create_private / get_property / property_exists /
+    set_shared / set_persistent / set_name calls, property writes, handle copies, moves and drops,
+    clear_props / clear_all_props / clear(), topology changes, mesh construction, copy construction,
+    assignment (incl. self and cross-kind) and destruction with handles outstanding
+    satisfies `Inv` (throwing calls leave the state as it is, see `run`). -/
+theorem registry_invariants (ops : List Op) : Inv (run {} ops) :=
+  run_inv ops inv_empty
+
+/-- persistent ⟹ shared ⟹ named, and a shared name is unique per (mesh, entity kind, value type) -/
+theorem persistent_shared_named_unique (ops : List Op) :
+    let w := run {} ops
+    (∀ s ∈ w.heap, s.pers = true → s.shared = true) ∧
+    (∀ s ∈ w.heap, s.shared = true → s.name ≠ "") ∧
+    (∀ s ∈ w.heap, ∀ t ∈ w.heap, s.shared = true → t.shared = true → s.tracker.isSome = true →
+        s.tracker = t.tracker → s.kind = t.kind → s.ty = t.ty → s.name = t.name → s.id = t.id) :=
+  let h := (registry_invariants ops).x
+  ⟨h.persShared, h.sharedNamed, h.unique⟩
+
+/-- a storage exists ⇔ a handle refers to it (user handle or the mesh's own position handle) or it
+    is persistent on a live mesh -/
+theorem exists_iff_referenced (ops : List Op) (i : Nat) :
+    let w := run {} ops
+    (∃ s ∈ w.heap, s.id = i) ↔
+      (∃ h ∈ w.handles, h.2 = i) ∨ (∃ me ∈ w.meshes, me.pos = i) ∨
+      (∃ s ∈ w.heap, s.id = i ∧ s.pers = true ∧ ∃ me ∈ w.meshes, s.tracker = some me.id) :=
+  OVM.Registry.exists_iff_referenced (registry_invariants ops) i
+
+/-- `n_props<k>()` counts the distinct storages of kind `k` attached to the mesh;
+    `n_persistent_props<k>()` counts those of them flagged persistent -/
+theorem counts_reflect_registry (ops : List Op) (k : Kind) :
+    let w := run {} ops
+    (∀ m, nProps w m k = ((tracked w m k).map (·.id)).length ∧ ((tracked w m k).map (·.id)).Nodup ∧
+        ∀ s, s ∈ tracked w m k ↔ s ∈ w.heap ∧ s.tracker = some m ∧ s.kind = k) ∧
+    (∀ me ∈ w.meshes, nPers w me.id k =
+        (w.heap.filter (fun s => s.pers && s.tracker == some me.id && s.kind == k)).length) :=
+  ⟨fun m => nProps_distinct (registry_invariants ops) m k,
+   fun _ hme => nPers_eq_count (registry_invariants ops) hme k⟩
+
+/-- no unchecked access ever happens (`position_[vh] = p`, the `std::copy` of the positions) -/
+theorem no_unchecked_access (ops : List Op) : (run {} ops).fault = false :=
+  (registry_invariants ops).x.noFault
+
+/-! ## 3. request / create / get, visibility -/
+
+/-- `request_property` returns the live shared storage of that (kind, type, name) — the very same
+    storage, nothing else changes — and otherwise creates a fresh one (shared iff named) -/
+theorem request_returns_existing_or_creates {w : World} (hi : Inv w) {m h : Nat} {me : Mesh} {k : Kind} {ty : Ty}
+    {name : String} {d : Int} (hm : getM w m = some me) (hf : freeSlot w h = true) :
+    (∀ sid, find w m k ty name = some sid →
+        step w (.request m h k ty name d) = .ok (addHandle w h sid, .ok) ∧
+        ∃ s ∈ w.heap, s.id = sid ∧ s.tracker = some m ∧ s.kind = k ∧ s.shared = true ∧ s.name = name ∧ s.ty = ty) ∧
+    (find w m k ty name = none →
+        step w (.request m h k ty name d) = .ok (createRaw w me h k ty name d (name != ""), .ok) ∧
+        getS w w.next = none) := by
+  refine ⟨fun sid hfind => ⟨request_step_existing hi (by simp [hm]) hf hfind, (find_some hfind).2⟩,
+          fun hfind => ⟨request_step_creates hi hm hf hfind, ?_⟩⟩
+  cases hg : getS w w.next with
+  | none => rfl
+  | some s =>
+    have := hi.x.idsLt s (getS_some hg).1
+    rw [(getS_some hg).2] at this
+    exact absurd this (Nat.lt_irrefl _)
+
+/-- and the lookup is complete: the shared storage with that key IS found -/
+theorem lookup_complete {w : World} (hi : Inv w) {m : Nat} {s : Storage} (hs : s ∈ w.heap) (ht : s.tracker = some m)
+    (hsh : s.shared = true) : find w m s.kind s.ty s.name = some s.id :=
+  find_unique hi hs ht rfl hsh rfl rfl
+
+/-- `create_shared_property` / `create_persistent_property` refuse a duplicate: empty optional and
+    the state is unchanged -/
+theorem create_refuses_duplicates {w : World} (hi : Inv w) {m h : Nat} {k : Kind} {ty : Ty} {name : String} {d : Int}
+    {sid : Nat} (hm : (getM w m).isSome = true) (hf : freeSlot w h = true) (hn : name ≠ "")
+    (hfind : find w m k ty name = some sid) :
+    step w (.createShared m h k ty name d) = .ok (w, .none) ∧
+    step w (.createPersistent m h k ty name d) = .ok (w, .none) :=
+  create_step_refuses hi hm hf hn hfind
+
+/-- a private (or anonymised) storage is never found by name, whatever is asked for -/
+theorem private_never_found {w : World} (hi : Inv w) {s : Storage} (hs : s ∈ w.heap) (hp : s.shared = false)
+    (m : Nat) (k : Kind) (ty : Ty) (name : String) : find w m k ty name ≠ some s.id :=
+  private_not_found hi hs hp m k ty name
+
+/-! ## 4. Transitions that would break the invariant throw and change nothing -/
+
+/-- a throwing call leaves the state unchanged -/
+theorem throwing_changes_nothing {w : World} {op : Op} {e : Err} (h : step w op = .error e) : next w op = w :=
+  error_unchanged h
+
+/-- the throwing transitions: persistent needs shared; shared needs a name and uniqueness; a shared
+    storage cannot be renamed to "" or onto another shared one; create_shared/persistent need a name -/
+theorem invariant_breaking_calls_throw {w : World} {m h sid : Nat} {s : Storage} :
+    (ownStorage w m h = some s → s.pers = false → s.shared = false → core w (.setPersistent m h true) = .error .runtime) ∧
+    (ownStorage w m h = some s → s.shared = false → s.name = "" → core w (.setShared m h true) = .error .runtime) ∧
+    (∀ sid', ownStorage w m h = some s → s.shared = false → s.name ≠ "" → find w m s.kind s.ty s.name = some sid' →
+        core w (.setShared m h true) = .error .runtime) ∧
+    (hget w h = some sid → getS w sid = some s → s.shared = true → core w (.setName h "") = .error .runtime) ∧
+    (∀ name, hget w h = some sid → getS w sid = some s → s.shared = true → nameClash w s name = true →
+        core w (.setName h name) = .error .runtime) ∧
+    (∀ k ty d, (getM w m).isSome = true → freeSlot w h = true →
+        core w (.createShared m h k ty "" d) = .error .runtime ∧ core w (.createPersistent m h k ty "" d) = .error .runtime) :=
+  ⟨setPersistent_private_throws, setShared_anonymous_throws, fun _ a b c d => setShared_duplicate_throws a b c d,
+   setName_shared_empty_throws, fun _ a b c d => setName_shared_clash_throws a b c d,
+   fun k ty d a b => create_empty_name_throws w m h k ty d a b⟩
+
+/-! ## 5. A handle that outlives its mesh -/
+
+/-- after the mesh is destroyed the handle still resolves, reports being detached, and sees the
+    same name, flags, default and values -/
+theorem handle_outliving_mesh_keeps_data {w w' : World} {m h sid : Nat} {s : Storage} {r : Res}
+    (hh : hget w h = some sid) (hs : getS w sid = some s) (ht : s.tracker = some m)
+    (e : step w (.destroy m) = .ok (w', r)) :
+    hview w' h = some { s with tracker := none } :=
+  handle_outlives_mesh hh hs ht e
+
+/-! ## 6. Non-vacuity -/
+
+/-- a history through most transitions: persistent + shared + private properties with colliding
+    names, a rejected duplicate, throwing set_persistent / set_name / create_shared(""), a mesh
+    copy, clear_props, and destruction of the first mesh while three handles are outstanding -/
+def demo : List Op :=
+  [.newMesh 0 0 1, .addVertex 0 5 2, .addVertex 0 6 3,
+   .createPersistent 0 0 .V .int "a" 7, .write 0 1 42,
+   .createShared 0 1 .V .int "a" 0,            -- refused: empty optional
+   .createShared 0 1 .V .double "a" 1,         -- same name, other type: fine
+   .createPrivate 0 2 .V .int "a" 2,           -- same name, private: fine
+   .setPersistent 0 2 true,                    -- throws: not shared
+   .setShared 0 2 true,                        -- throws: duplicate (int "a" exists)
+   .setName 1 "",                              -- throws: shared
+   .createShared 0 3 .V .int "" 0,             -- throws: no name
+   .request 0 3 .V .int "a" 9,                 -- returns the existing persistent one
+   .copy 0 1, .clearProps 0 .V, .hdrop 3, .destroy 0]
+
+def demoW : World := run {} demo
+
+example :
+    demoW.handles = [(2, 3), (1, 2), (0, 1)] ∧
+    (demoW.heap.map (fun s => (s.id, s.name, s.shared, s.pers))) =
+      [(1, "a", false, false), (2, "a", false, false), (3, "a", false, false), (5, "a", true, true),
+       (8, "ovm:position", true, false)] ∧
+    (demoW.heap.map (fun s => (s.id, s.tracker, s.vals))) =
+      [(1, none, [7, 42]), (2, none, [1, 1]), (3, none, [2, 2]), (5, some 1, [7, 42]), (8, some 1, [5, 6])] ∧
+    nProps demoW 1 .V = 2 ∧ nPers demoW 1 .V = 1 ∧ demoW.fault = false := by
+  decide
+
+/-- the lookups used above do find / refuse what the comments say -/
+def demoW5 : World := run {} (demo.take 5)
+
+example :
+    (step demoW5 (.createShared 0 1 .V .int "a" 0)).toOption.map (·.2) = some Res.none ∧
+    (step demoW5 (.setName 0 "")).toOption = none ∧
+    find demoW5 0 .V .int "a" = some 1 ∧ find demoW5 0 .V .double "a" = none := by
+  decide
+
+/-! ## 7. Historical note: the transition `set_name` had before fix a0b1b3d
+
+  `PropertyStorageBase::set_name` used to assign the name unconditionally.  That transition does
+  break the invariant (which is why the full-strength theorem above is about the checked one); the
+  witness is kept as an `example` about an explicitly separate function. -/
+
+/-- the unchecked `set_name` of the pinned snapshot af91eac -/
+def setNameUnchecked (w : World) (h : Nat) (name : String) : World :=
+  match hget w h with
+  | some sid => modS w sid (fun s => { s with name := name })
+  | none => w
+
+def oldW : World := run {} [.newMesh 0 0 1, .createShared 0 0 .V .int "a" 0, .createPersistent 0 1 .V .int "b" 0]
+
+example :
+    (∃ s ∈ (setNameUnchecked oldW 0 "").heap, s.shared = true ∧ s.name = "") ∧
+    (∃ s ∈ (setNameUnchecked oldW 1 "a").heap, ∃ t ∈ (setNameUnchecked oldW 1 "a").heap, s.id ≠ t.id ∧
+        s.shared = true ∧ t.shared = true ∧ s.tracker = t.tracker ∧ s.kind = t.kind ∧ s.ty = t.ty ∧ s.name = t.name) := by
   decide
 
 end OVM.Props.C14
